@@ -6,25 +6,18 @@
     interface holds for every input with 1 <= k <= 2^30 players ([Source = uint32_t] must not wrap).
     Consequence: MWMA_LOSER_TREE is closed end-to-end over the C09 model ([c9_mwm_stable], [c9_mwm_any]).
 
-    Unguarded classes ([c9u_*], LoserTreeUnguarded<Stable,...>): C09 proves its theorems under the documented
-    precondition of these classes, "the sentinel is not less than any key handed in" ([pl_ok] / [op_ok]).  Under
-    that condition ([ukey sen x := ltb sen x = false]) the interface holds ([c9_utree_ok]).  This covers
-    MWMA_LOSER_TREE_SENTINEL whenever no sequence's sentinel is greater than the first sequence's sentinel (e.g. all
-    sentinels equal, as in tlx's own test).  It does NOT cover multiway_merge_loser_tree_combined in general:
-    that routine builds the unguarded tree with padding key [*(seqs_begin->second - 1)] (last element of sequence
-    0) and hands it heads of other sequences that may be greater.  The code is still right there (the padding
-    players are ordinary players with key = padding key and source = invalid_, and they cannot win while a real
-    head beats the padding key — which is what [utree_ok] asks and what prepare_unguarded guarantees), but C09's
-    invariant ranks padding below every real player ([VOrder.rk]), which is only consistent with the code's
-    comparisons when all real keys are <= the padding key.  Missing lemma (for C09): [TInv] / [dmi_TInv] /
-    [TInv_winner_ok] for the unguarded variants with the order (key, source) on ALL leaves, padding included, and
-    conclusion "if some live key k has [ltb k sentinel = true] (stable: [ltb sentinel k = false]) then
-    [lt_min_source] is a [winner_ok] real player".  With that lemma [c9_utree_ok] holds with [ukey := True] and
-    COMBINED closes the same way.  Until then COMBINED (k >= 5) is closed over the C09 guarded tree and ANY
-    unguarded tree meeting [utree_ok] (e.g. the reference tournament), or over the C09 unguarded tree for inputs
-    whose elements are all <= the last element of sequence 0. *)
+    Unguarded classes ([c9u_*], LoserTreeUnguarded<Stable,...>): multiway_merge_loser_tree_combined builds the
+    unguarded tree with padding key [*(seqs_begin->second - 1)] (last element of sequence 0) and hands it heads of
+    other sequences that may be GREATER than that key, so the documented precondition of these classes ("the sentinel
+    is not less than any key handed in", C09's [TInv] for the unguarded variants) does not hold there.  C09's
+    general unguarded invariant [UInv] (C09/UnguardedGeneral.v: padding leaves are ordinary players (sentinel,
+    invalid_) under the (key, source) order; no bound on the keys) is what fits: [ubuild_UInv], [udmi_UInv] and
+    [uwinner_ok] ("while some live key beats the sentinel - strictly, for the stable classes: is not greater -
+    min_source is a right real player") are exactly [utree_ok] with no key condition ([c9_utree_ok]).
+    Consequence: MWMA_LOSER_TREE, MWMA_LOSER_TREE_COMBINED and MWMA_LOSER_TREE_SENTINEL (and all the rest) are closed
+    end-to-end over the C09 model; the only assumption beyond the property's own is k <= 2^30. *)
 From Coq Require Import List Bool Arith NArith Lia Sorting.Sorted.
-From TLXV Require Import Common.Order C09.LoserTree C09.Spec C09.Winner
+From TLXV Require Import Common.Order C09.LoserTree C09.Spec C09.Winner C09.UnguardedGeneral
      C05.AutoDefs C05.StableMerge C05.Model C05.C09Model C05.MergeFacts C05.LoserLoopProofs C05.BaseProofs C05.RefTreeProofs C05.Final.
 Import ListNotations.
 
@@ -109,37 +102,37 @@ Section Inst.
       apply dmi_TInv; auto; [now apply some_live_of|]. intros G. rewrite Ev in G. discriminate.
   Qed.
 
-  (** ** unguarded, under C09's documented precondition on the keys *)
-  Definition c9_ukey (sen x : A) : Prop := ltb sen x = false.
-
+  (** ** unguarded: C09's general invariant, no condition on the keys *)
   Definition c9_urep (b : bool) (t : CT) (sen : A) (hs : list A) : Prop :=
-    fst t = mkV ptr false b /\ TInv ltb dkey sen (fst t) (snd t) (map Some hs).
+    fst t = mkV ptr false b /\ UInv ltb dkey sen (fst t) (snd t) (map Some hs).
 
-  Theorem c9_utree_ok : utree_ok ltb c9_size c9_ukey c9u_init c9u_min c9u_dmi c9_urep.
+  Lemma all_some_map (hs : list A) : all_some (map Some hs).
+  Proof.
+    intros i x Hi. rewrite nthN_nth_error, nth_error_map in Hi.
+    destruct (nth_error hs (N.to_nat i)) as [k|]; [|discriminate]. simpl in Hi. inversion Hi; subst. eauto.
+  Qed.
+
+  Theorem c9_utree_ok : utree_ok ltb c9_size (fun _ _ => True) c9u_init c9u_min c9u_dmi c9_urep.
   Proof.
     constructor.
-    - intros b sen hs Hsz Hk. split; [reflexivity|]. apply build_TInv; auto.
-      + now rewrite map_length.
-      + intros _ i x Hi. rewrite nthN_nth_error, nth_error_map in Hi.
-        destruct (nth_error hs (N.to_nat i)) as [k|] eqn:E; [|discriminate]. simpl in Hi. inversion Hi; subst.
-        exists k. split; [reflexivity|]. rewrite Forall_forall in Hk. apply Hk. eapply nth_error_In; eauto.
-    - intros b t sen hs [Ev Hinv] (s0 & x0 & E0 & _).
-      assert (Hlive : exists s x, nth_error (map Some hs) s = Some (Some x)).
-      { exists s0, x0. now rewrite nth_error_map, E0. }
-      pose proof (TInv_winner_ok ltb dkey sen H _ _ _ Hinv (some_live_of _ Hlive)) as W.
+    - intros b sen hs Hsz _. split; [reflexivity|]. apply ubuild_UInv; [reflexivity| |apply all_some_map].
+      now rewrite map_length.
+    - intros b t sen hs [Ev Hinv] (s0 & x0 & E0 & Hb).
+      assert (Gv : v_guarded (fst t) = false) by (rewrite Ev; reflexivity).
+      destruct (uwinner_ok ltb dkey sen H (fst t) Gv (snd t) _ Hinv) as [W Ne].
+      { exists (N.of_nat s0), x0. split.
+        - unfold live. now rewrite nthN_of_nat, nth_error_map, E0.
+        - unfold beats_sentinel. rewrite Ev. cbn [v_stable]. exact Hb. }
       rewrite Ev in W at 1. cbn [v_stable] in W.
-      destruct (winner_ok_winner _ _ _ W) as [W' Ne].
-      { rewrite <- (ti_ik _ _ _ _ _ _ Hinv). apply (ti_ik1 _ _ _ _ _ _ Hinv). }
+      destruct (winner_ok_winner _ _ _ W) as [W' Ne'].
+      { rewrite <- (ui_ik _ _ _ _ _ _ Hinv). apply (ui_ik1 _ _ _ _ _ _ Hinv). }
       exists (N.to_nat (lt_min_source dkey (fst t) (snd t))). split; [|exact W'].
-      unfold c9u_min. now rewrite Ne.
-    - intros b t sen hs x s [Ev Hinv] Em Hk. split; [exact Ev|]. unfold c9u_dmi. cbn [fst snd].
-      unfold c9u_min in Em. destruct (N.eqb (lt_min_source dkey (fst t) (snd t)) invalid_) eqn:Ne; [discriminate|].
+      unfold C09Model.c9u_min. now rewrite Ne'.
+    - intros b t sen hs x s [Ev Hinv] Em _. split; [exact Ev|]. unfold C09Model.c9u_dmi. cbn [fst snd].
+      assert (Gv : v_guarded (fst t) = false) by (rewrite Ev; reflexivity).
+      unfold C09Model.c9u_min in Em. destruct (N.eqb (lt_min_source dkey (fst t) (snd t)) invalid_) eqn:Ne; [discriminate|].
       inversion Em; subst s. rewrite map_upd, <- setN_upd.
-      (* some player is live: the tree has at least one player and unguarded players are never exhausted *)
-      assert (Hlive : some_live (map Some hs)).
-      { pose proof (ti_ik1 _ _ _ _ _ _ Hinv) as [L1 _]. rewrite (ti_ik _ _ _ _ _ _ Hinv), map_length in L1.
-        destruct hs as [|h hs']; [simpl in L1; lia|]. exists 0%N, h. reflexivity. }
-      apply dmi_TInv; auto. intros _. exists x. split; [reflexivity|exact Hk].
+      apply udmi_UInv; auto. now apply N.eqb_neq.
   Qed.
 End Inst.
 
@@ -154,112 +147,64 @@ Section Closed.
 
   Notation c9_mwm := (c9_mwm ltb dkey ptr).
 
-  (** Which calls are covered by C09's theorems: everything that does not run an unguarded tree outside C09's key
-      precondition.  k <= 4 uses no tree; MWMA_LOSER_TREE and MWMA_BUBBLE use no unguarded tree. *)
-  Definition c9_covered (alg : mwma) (sentinels : bool) (st : list (list A)) (sents : list A) : Prop :=
-    5 <= length st ->
-    (N.of_nat (length st) <= 2 ^ 30)%N /\
-    (eff_alg alg sentinels = MWMA_LOSER_TREE_COMBINED ->
-       forall sen, last_error (hd [] st) = Some sen -> forall l x, In l st -> In x l -> ltb sen x = false) /\
-    (eff_alg alg sentinels = MWMA_LOSER_TREE_SENTINEL ->
-       forall z0, hd_error sents = Some z0 -> forall z, In z sents -> ltb z0 z = false).
-
-  Lemma c9_covered_side alg sentinels st sents :
-    (sentinels = true -> sent_ok ltb st sents) -> c9_covered alg sentinels st sents ->
-    side_ok c9_size c9_size (c9_ukey ltb) alg sentinels st sents.
+  (** The only side condition: Source = uint32_t arithmetic of the trees must not wrap (trees are used for k >= 5). *)
+  Lemma c9_side alg sentinels (st : list (list A)) sents :
+    (N.of_nat (length st) <= 2 ^ 30)%N -> side_ok c9_size c9_size (fun _ _ : A => True) alg sentinels st sents.
   Proof.
-    intros Hsent Hc L5. destruct (Hc L5) as (Hsz & Hkc & Hks).
-    assert (Hs : c9_size (length st)) by (unfold c9_size; lia).
-    split; [exact Hs|]. split; [exact Hs|]. split.
-    - intros Ea sen Esen l x Hl Hx. exact (Hkc Ea sen Esen l x Hl Hx).
-    - intros Ea z0 Ez0. split; [|exact (Hks Ea z0 Ez0)].
-      intros l x Hl Hx. unfold c9_ukey.
-      assert (Es : sentinels = true) by (unfold eff_alg in Ea; destruct alg, sentinels; congruence).
-      destruct (Hsent Es) as [_ Hgt].
-      apply (swo_asym _ H). apply (Hgt l x z0 Hl Hx). destruct sents; [discriminate|]. inversion Ez0; now left.
+    intros Hsz L5. assert (Hs : c9_size (length st)) by (unfold c9_size; lia).
+    split; [exact Hs|]. split; [exact Hs|]. split; intros; [intros ? ? _ _; exact I|].
+    split; [intros ? ? _ _; exact I|intros; exact I].
+  Qed.
+
+  (** Every entry point, every algorithm over the C09 trees performs a merge run of [len] steps
+      ([c9_mwm ltb dkey ptr] is [C09Model.c9_mwm] = [mwm_base] over C09's [lt_build / lt_min_source /
+      lt_delete_min_insert]). *)
+  Theorem c9_mwm_run stable sentinels alg (st : list (list A)) sents len :
+    inputs_ok ltb st -> len <= total st -> (sentinels = true -> sent_ok ltb st sents) ->
+    (N.of_nat (length st) <= 2 ^ 30)%N ->
+    exists out st', c9_mwm stable sentinels alg st sents len = Some (out, st') /\
+                    mrun ltb stable st out st' /\ length out = len.
+  Proof.
+    intros Hin Hlen Hsent Hsz. unfold c9_mwm.
+    apply (mwm_run ltb H CT _ _ _ (c9_grep ltb dkey ptr) c9_size (c9_gtree_ok ltb dkey ptr H)
+                   CT _ _ _ (c9_urep ltb dkey ptr) c9_size (fun _ _ => True) (c9_utree_ok ltb dkey ptr H)); auto.
+    now apply c9_side.
   Qed.
 
   (** Stable entry points over the C09 trees: the first [len] elements of the stable merge. *)
   Theorem c9_mwm_stable sentinels alg (st : list (list A)) sents len :
     inputs_ok ltb st -> len <= total st -> (sentinels = true -> sent_ok ltb st sents) ->
-    c9_covered alg sentinels st sents ->
+    (N.of_nat (length st) <= 2 ^ 30)%N ->
     c9_mwm true sentinels alg st sents len = Some (firstn len (gmerge ltb st), snd (msteps ltb len st)).
   Proof.
-    intros Hin Hlen Hsent Hc. unfold c9_mwm.
+    intros Hin Hlen Hsent Hsz. unfold c9_mwm.
     apply (mwm_stable ltb H CT _ _ _ (c9_grep ltb dkey ptr) c9_size (c9_gtree_ok ltb dkey ptr H)
-                      CT _ _ _ (c9_urep ltb dkey ptr) c9_size (c9_ukey ltb) (c9_utree_ok ltb dkey ptr H)); auto.
-    now apply c9_covered_side.
-  Qed.
-
-  (** Every variant over the C09 trees performs a merge run of [len] steps ([c9_mwm ltb dkey ptr] is
-      [C09Model.c9_mwm] = [mwm_base] over C09's [lt_build / lt_min_source / lt_delete_min_insert]). *)
-  Theorem c9_mwm_run stable sentinels alg (st : list (list A)) sents len :
-    inputs_ok ltb st -> len <= total st -> (sentinels = true -> sent_ok ltb st sents) ->
-    c9_covered alg sentinels st sents ->
-    exists out st', c9_mwm stable sentinels alg st sents len = Some (out, st') /\
-                    mrun ltb stable st out st' /\ length out = len.
-  Proof.
-    intros Hin Hlen Hsent Hc. unfold c9_mwm.
-    apply (mwm_run ltb H CT _ _ _ (c9_grep ltb dkey ptr) c9_size (c9_gtree_ok ltb dkey ptr H)
-                   CT _ _ _ (c9_urep ltb dkey ptr) c9_size (c9_ukey ltb) (c9_utree_ok ltb dkey ptr H)); auto.
-    now apply c9_covered_side.
+                      CT _ _ _ (c9_urep ltb dkey ptr) c9_size (fun _ _ => True) (c9_utree_ok ltb dkey ptr H)); auto.
+    now apply c9_side.
   Qed.
 
   (** All entry points over the C09 trees. *)
   Theorem c9_mwm_any stable sentinels alg (st : list (list A)) sents len :
     inputs_ok ltb st -> len <= total st -> (sentinels = true -> sent_ok ltb st sents) ->
-    c9_covered alg sentinels st sents ->
+    (N.of_nat (length st) <= 2 ^ 30)%N ->
     exists out st', c9_mwm stable sentinels alg st sents len = Some (out, st') /\
       length out = len /\
       StronglySorted (sorted_rel ltb) out /\
       (exists ps, length ps = length st /\ interleave ps out /\ forall s, nth s st [] = nth s ps [] ++ nth s st' []) /\
       (forall x l y, In x out -> In l st' -> In y l -> ltb y x = false).
   Proof.
-    intros Hin Hlen Hsent Hc. unfold c9_mwm.
+    intros Hin Hlen Hsent Hsz. unfold c9_mwm.
     apply (mwm_any ltb H CT _ _ _ (c9_grep ltb dkey ptr) c9_size (c9_gtree_ok ltb dkey ptr H)
-                   CT _ _ _ (c9_urep ltb dkey ptr) c9_size (c9_ukey ltb) (c9_utree_ok ltb dkey ptr H)); auto.
-    now apply c9_covered_side.
+                   CT _ _ _ (c9_urep ltb dkey ptr) c9_size (fun _ _ => True) (c9_utree_ok ltb dkey ptr H)); auto.
+    now apply c9_side.
   Qed.
-
-  (** MWMA_LOSER_TREE (and MWMA_BUBBLE, and every k <= 4) needs nothing but the size bound. *)
-  Corollary c9_loser_tree_stable sentinels (st : list (list A)) sents len :
-    inputs_ok ltb st -> len <= total st -> (sentinels = true -> sent_ok ltb st sents) ->
-    (N.of_nat (length st) <= 2 ^ 30)%N ->
-    c9_mwm true sentinels MWMA_LOSER_TREE st sents len = Some (firstn len (gmerge ltb st), snd (msteps ltb len st)).
-  Proof.
-    intros Hin Hlen Hsent Hsz. apply c9_mwm_stable; auto.
-    intros _. split; [exact Hsz|]. split; discriminate.
-  Qed.
-
-  (** MWMA_LOSER_TREE_COMBINED over the C09 GUARDED tree and any unguarded tree meeting the interface
-      (see the header for why C09's unguarded theorems do not apply to this routine). *)
-  Section AnyUnguarded.
-    Variable UT : Type.
-    Variable ut_init : bool -> A -> list A -> UT.
-    Variable ut_min : UT -> option nat.
-    Variable ut_dmi : UT -> A -> UT.
-    Variable urep : bool -> UT -> A -> list A -> Prop.
-    Hypothesis Uok : utree_ok ltb (fun _ => True) (fun _ _ => True) ut_init ut_min ut_dmi urep.
-
-    Theorem c9_guarded_any_unguarded_stable sentinels alg (st : list (list A)) sents len :
-      inputs_ok ltb st -> len <= total st -> (sentinels = true -> sent_ok ltb st sents) ->
-      (N.of_nat (length st) <= 2 ^ 30)%N ->
-      mwm_base ltb CT (c9g_init ltb dkey ptr) (c9g_min dkey) (c9g_dmi ltb dkey) UT ut_init ut_min ut_dmi
-               true sentinels alg st sents len = Some (firstn len (gmerge ltb st), snd (msteps ltb len st)).
-    Proof.
-      intros Hin Hlen Hsent Hsz.
-      apply (mwm_stable ltb H CT _ _ _ (c9_grep ltb dkey ptr) c9_size (c9_gtree_ok ltb dkey ptr H)
-                        UT _ _ _ urep (fun _ => True) (fun _ _ => True) Uok); auto.
-      intros L5. split; [unfold c9_size; lia|]. split; [exact I|]. split; intros; [intros ? ? _ _; exact I|].
-      split; [intros ? ? _ _; exact I|intros; exact I].
-    Qed.
-  End AnyUnguarded.
 End Closed.
 
-(** Non-vacuity: the C09-backed model computes, with equal sentinels, for all three tree algorithms. *)
+(** Non-vacuity: the C09-backed model computes, for all three tree algorithms (sentinels different from each other;
+    COMBINED on an input whose other sequences exceed the last element of sequence 0). *)
 Example c9_example :
   let st := [[1; 3; 3]; []; [2; 3]; [0; 3; 9]; [3]; [4; 4]] in
-  c9_mwm Nat.ltb 0 false true true MWMA_LOSER_TREE_SENTINEL st [10; 10; 10; 10; 10; 10] 7 = Some ([0; 1; 2; 3; 3; 3; 3], snd (msteps Nat.ltb 7 st)) /\
+  c9_mwm Nat.ltb 0 false true true MWMA_LOSER_TREE_SENTINEL st [10; 12; 11; 10; 13; 10] 7 = Some ([0; 1; 2; 3; 3; 3; 3], snd (msteps Nat.ltb 7 st)) /\
   c9_mwm Nat.ltb 0 true true false MWMA_LOSER_TREE st [] 7 = Some ([0; 1; 2; 3; 3; 3; 3], snd (msteps Nat.ltb 7 st)) /\
   c9_mwm Nat.ltb 0 false false false MWMA_LOSER_TREE_COMBINED st [] 9 = Some ([0; 1; 2; 3; 3; 3; 3; 3; 4], snd (msteps Nat.ltb 9 st)).
 Proof. vm_compute. repeat split; reflexivity. Qed.
